@@ -143,6 +143,7 @@ class RegexParser:
         self.flags = flags
         self.pos = 0
         self.group_count = 0
+        self.total_groups = 0
         self.unicode = "u" in flags
 
     def parse(self) -> Tuple[Node, int]:
@@ -151,6 +152,8 @@ class RegexParser:
         """
         self.pos = 0
         self.group_count = 0
+        # A backreference may precede its group (\\1(a)): validate against the total
+        self.total_groups = self._count_capturing_groups()
 
         if not self.pattern:
             return Alternative([]), 1  # Empty pattern matches empty string
@@ -163,6 +166,30 @@ class RegexParser:
             )
 
         return ast, self.group_count + 1  # +1 for group 0 (full match)
+
+    def _count_capturing_groups(self) -> int:
+        """Number of capturing groups in the whole pattern."""
+        count = 0
+        in_class = False
+        i = 0
+        pattern = self.pattern
+        while i < len(pattern):
+            ch = pattern[i]
+            if ch == "\\":
+                i += 2
+                continue
+            if in_class:
+                if ch == "]":
+                    in_class = False
+            elif ch == "[":
+                in_class = True
+            elif ch == "(":
+                if pattern[i + 1 : i + 2] != "?":
+                    count += 1
+                elif pattern[i + 2 : i + 3] == "<" and pattern[i + 3 : i + 4] not in ("=", "!"):
+                    count += 1  # named group
+            i += 1
+        return count
 
     def _peek(self) -> Optional[str]:
         """Look at current character without consuming."""
@@ -480,7 +507,7 @@ class RegexParser:
             while self._peek() is not None and self._peek().isdigit():
                 num += self._advance()
             group_num = int(num)
-            if group_num > self.group_count:
+            if group_num > self.total_groups:
                 # Might be octal or invalid - treat as literal for now
                 raise RegExpError(f"Invalid backreference \\{group_num}")
             return Backref(group_num)
